@@ -12,7 +12,7 @@ from core import TRUST_COMMON
 import fitlib
 from fitlib import q
 
-MODS = ["Nanite.Props.C13", "Nanite.Audit.C13"]
+MODS = ["Nanite.Props.C13", "Nanite.Audit.C13", "Nanite.Props.C13Shape", "Nanite.Audit.C13Shape"]
 
 
 def harness_module(key, kind):
@@ -177,15 +177,19 @@ def run(ctx):
         "hand-written model lean/Nanite/Model/Residual.lean of model_direction_agnostic / residual (tied by "
         "exact correspondence with harness-defined order-sensitive models registered through register_model)",
         "translation / baseline / linearity / monotonicity of user model functions are not provable (arbitrary "
-        "programs): monitored by the oracle; for the shipped models they are theorems in Props/C02"]
+        "programs): monitored by the oracle; for the shipped models they are theorems about the regenerated "
+        "definitions (Props/C02, Props/C13Shape: translation, baseline, linearity for all five; monotone in depth "
+        "and continuous across the contact point for the four single-material models, the sphere series up to the "
+        "tip radius; the layered Clifford model's monotonicity/continuity is checked by the oracle only)"]
     ctx.rule = ("abscissa arrays of either orientation (strict, with ties, noisy, constant, non-monotonic; lengths "
                 "1-50) through harness models (running sum = order-sensitive, index-dependent, point-wise) "
                 "registered in the real registry vs the Lean wrapper; default residuals vs (data - model) x "
                 "weights; contract oracle on every registered model; non-trivial = distinct (model, abscissa)")
+    ctx.gen(["models"])
     ctx.build(MODS, clean=(ctx.tier == "thorough"))
     ctx.grep_audit()
     if ctx.tier == "thorough":
-        ctx.leanchecker(["Nanite.Props.C13"])
+        ctx.leanchecker(["Nanite.Props.C13", "Nanite.Props.C13Shape"])
     from nanite import model
     rng = ctx.rng
     mods = {k: harness_module("verif_c13_" + k, k) for k in ("cumsum", "square", "index")}
